@@ -138,7 +138,7 @@ pub struct ProofSpec {
     /// pool index of the base set (whose keys sign)
     pub set: u8,
     /// bit i set = declared position i carries a signature
-    pub mask: u32,
+    pub mask: u64,
     pub tamper: Tamper,
     pub sig_fault: SigFault,
     pub digest: DigestVar,
